@@ -75,6 +75,7 @@ type StepOut struct {
 	Panic  string
 	Hang   bool
 	Err    string // error returned by a synchronous engine call
+	Others [][]byte // bytes received by each connection during the action (index = connection; the issuer's own are in Raw)
 }
 
 func (o StepOut) Brief() string {
@@ -184,14 +185,18 @@ func outOfReply(r Reply) StepOut {
 func (w *World) Do(a Action) StepOut {
 	switch a.K {
 	case "cmd":
-		return outOfReply(w.in.Do(a.C, a.A...))
+		o := outOfReply(w.in.Do(a.C, a.A...))
+		o.Others = w.in.TakeAll(a.C)
+		return o
 	case "tcmd": // timed command: the clock moves 1 ms first, so that every command has its own instant
 		verifrt.Advance(time.Millisecond, nil)
 		return outOfReply(w.in.Do(a.C, a.A...))
 	case "raw":
 		return outOfReply(w.in.DoRaw(a.C, []byte(a.A[0])))
 	case "emb":
-		return outOfReply(w.in.Embedded(a.A...))
+		o := outOfReply(w.in.Embedded(a.A...))
+		o.Others = w.in.TakeAll(-1)
+		return o
 	case "adv":
 		hung := false
 		verifrt.Advance(time.Duration(a.N)*time.Millisecond, func() {
